@@ -125,7 +125,8 @@ Ltac pose_moves :=
 Ltac fwd :=
   repeat match goal with
   | H : _ /\ _ |- _ => destruct H
-  | H : ?A -> _, H' : ?A |- _ => specialize (H H')
+  | H : ?A -> _, H' : ?A |- _ =>
+      lazymatch type of A with Prop => specialize (H H') end
   end.
 Ltac solve_prem :=
   repeat split; first [ lia | (eapply latched_intro; [eassumption | lia]) | exact I ].
@@ -444,3 +445,456 @@ Section ContainersMF.
         | _ => d_lex2 h end).
   Qed.
 End ContainersMF.
+
+Lemma skip_variant_mf : forall cf fuel L s,
+  mf2 (meas s + 2 <= fuel)%nat s (skip_variant cf fuel L s).
+Proof.
+  intros cf fuel. induction L as [|L IH]; intros s; cbn [skip_variant].
+  - mf_go d_lex2.
+  - mf_go ltac:(fun h => lazymatch h with
+      | skip_array_loop cf ?sv fuel ?X =>
+          pose proof (skip_array_loop_mf cf sv fuel IH fuel X);
+          destruct (skip_array_loop cf sv fuel X) as [? ?]
+      | skip_object_loop cf ?sv fuel ?X =>
+          pose proof (skip_object_loop_mf cf sv fuel IH fuel X);
+          destruct (skip_object_loop cf sv fuel X) as [? ?]
+      | _ => d_lex2 h end).
+Qed.
+
+Lemma parse_variant_mf : forall cf fuel L f s,
+  mf3 (meas s + 2 <= fuel)%nat s (parse_variant cf fuel L f s).
+Proof.
+  intros cf fuel. induction L as [|L IH]; intros f s; cbn [parse_variant].
+  - mf_go ltac:(fun h => lazymatch h with
+      | skip_variant cf fuel ?l ?X =>
+          pose proof (skip_variant_mf cf fuel l X); destruct (skip_variant cf fuel l X) as [? ?]
+      | _ => d_lex2 h end).
+  - mf_go ltac:(fun h => lazymatch h with
+      | skip_variant cf fuel ?l ?X =>
+          pose proof (skip_variant_mf cf fuel l X); destruct (skip_variant cf fuel l X) as [? ?]
+      | array_loop cf ?pv ?sv fuel ?e ?a ?X =>
+          pose proof (array_loop_mf cf pv sv fuel IH (skip_variant_mf cf fuel L) fuel e a X);
+          destruct (array_loop cf pv sv fuel e a X) as [[? ?] ?]
+      | object_loop cf ?pv ?sv fuel ?e ?a ?X =>
+          pose proof (object_loop_mf cf pv sv fuel IH (skip_variant_mf cf fuel L) fuel e a X);
+          destruct (object_loop cf pv sv fuel e a X) as [[? ?] ?]
+      | _ => d_lex2 h end).
+Qed.
+
+(* ------------------------------------------------------------------------------------- *)
+(* (A) accounting *)
+Theorem parse_variant_budget : forall cf fuel L f s e v s',
+  parse_variant cf fuel L f s = (e, v, s') -> budget s' = budget s.
+Proof.
+  intros cf fuel L f s e v s' H.
+  pose proof (parse_variant_mf cf fuel L f s) as [[B _] _]. rewrite H in B. exact B.
+Qed.
+
+Theorem skip_variant_budget : forall cf fuel L s e s',
+  skip_variant cf fuel L s = (e, s') -> budget s' = budget s.
+Proof.
+  intros cf fuel L s e s' H.
+  pose proof (skip_variant_mf cf fuel L s) as [[B _] _]. rewrite H in B. exact B.
+Qed.
+
+Theorem json_run_reads_bounded : forall cf f L i,
+  (reads (j_st (json_run cf f L i)) <= N.of_nat (length i))%N.
+Proof.
+  intros cf f L i. unfold json_run.
+  destruct (parse_variant cf (json_fuel i) L f (ps_init i)) as [[e v] s'] eqn:E.
+  cbn [j_st]. apply parse_variant_budget in E. unfold budget, ps_init in E.
+  cbn [reads rest] in E. lia.
+Qed.
+
+(* (C) termination *)
+Theorem json_run_total : forall cf f L i, j_err (json_run cf f L i) <> OutOfFuel.
+Proof.
+  intros cf f L i. unfold json_run.
+  pose proof (parse_variant_mf cf (json_fuel i) L f (ps_init i)) as [_ T].
+  assert (P : (meas (ps_init i) + 2 <= json_fuel i)%nat).
+  { unfold meas, ps_init, json_fuel. cbn [rest cur]. lia. }
+  specialize (T P).
+  destruct (parse_variant cf (json_fuel i) L f (ps_init i)) as [[e v] s']. cbn [fst] in T.
+  cbn [j_err]. destruct e; try discriminate.
+  - destruct (negb (lastc s' =? 0) && negb (is_space (lastc s')) && is_number v); discriminate.
+  - exact T.
+Qed.
+
+(* ===================================================================================== *)
+(* Part 2 — no read after the end of input; closing tokens                                *)
+
+Definition safe2 (Q : ps -> Prop) (r : code * ps) : Prop :=
+  fault (snd r) = false /\ (fst r = Ok -> Q (snd r)).
+Definition safe3 {A : Type} (Q : A -> ps -> Prop) (r : code * A * ps) : Prop :=
+  fault (snd r) = false /\ (fst (fst r) = Ok -> Q (snd (fst r)) (snd r)).
+Definition safep {A : Type} (r : A * ps) : Prop := alive (snd r).
+
+(* what parse_variant guarantees on success *)
+Definition Qd (v : jv) (s : ps) : Prop :=
+  alive s /\ (is_container_or_string v = true -> good s).
+
+Lemma good_alive : forall s, good s -> alive s.
+Proof. intros s G. left. exact G. Qed.
+Lemma at_end_alive : forall s, at_end s -> alive s.
+Proof. intros s G. right. exact G. Qed.
+Lemma alive_nofault : forall s, alive s -> fault s = false.
+Proof. intros s [(_ & F & _)|(_ & _ & F)]; exact F. Qed.
+Lemma move_good : forall s, good s -> good (move s).
+Proof.
+  intros s (He & Hf & _). unfold good, move; cbn [ended fault cur lastc].
+  split; [exact He|]. split; [exact Hf|]. intros c X. discriminate X.
+Qed.
+Lemma move_nofault : forall s, fault s = false -> fault (move s) = false.
+Proof. intros s H. exact H. Qed.
+Lemma set_found_good : forall s, good s -> good (set_found s).
+Proof. intros s G. exact G. Qed.
+Lemma set_found_alive : forall s, alive s -> alive (set_found s).
+Proof. intros s G. exact G. Qed.
+Lemma set_found_nofault : forall s, fault s = false -> fault (set_found s) = false.
+Proof. intros s G. exact G. Qed.
+
+Lemma current_alive : forall s, alive s ->
+  (fst (current s) <> 0 -> good (snd (current s))) /\
+  (fst (current s) = 0 -> at_end (snd (current s))) /\
+  alive (snd (current s)).
+Proof.
+  intros s [G|E].
+  - pose proof G as (He & Hf & Hc). unfold current.
+    destruct (cur s) as [c|] eqn:Ec; cbn [fst snd].
+    + destruct (Hc c eq_refl) as [Hz _].
+      split; [intros _; exact G|]. split; [intro Z; contradiction|left; exact G].
+    + unfold load. destruct (rest s) as [|b t]; cbn [fst snd lastc].
+      * assert (X : at_end {| rest := []; cur := Some 0; lastc := 0; reads := reads s;
+                              ended := true; fault := fault s || ended s; found := found s |}).
+        { unfold at_end; cbn [ended cur fault]. rewrite Hf, He. auto. }
+        split; [intro Z; contradiction Z; reflexivity|]. split; [intros _; exact X|right; exact X].
+      * destruct (N.eq_dec b 0) as [Eb|Eb].
+        -- subst b.
+           assert (X : at_end {| rest := t; cur := Some 0; lastc := 0; reads := reads s + 1;
+                                 ended := ended s || (0 =? 0); fault := fault s || ended s;
+                                 found := found s |}).
+           { unfold at_end; cbn [ended cur fault]. rewrite Hf, He. auto. }
+           split; [intro Z; contradiction Z; reflexivity|].
+           split; [intros _; exact X|right; exact X].
+        -- assert (X : good {| rest := t; cur := Some b; lastc := b; reads := reads s + 1;
+                               ended := ended s || (b =? 0); fault := fault s || ended s;
+                               found := found s |}).
+           { unfold good; cbn [ended cur fault lastc]. rewrite Hf, He.
+             rewrite (proj2 (N.eqb_neq b 0) Eb).
+             split; [reflexivity|]. split; [reflexivity|].
+             intros c X. injection X as <-. split; [exact Eb|reflexivity]. }
+           split; [intros _; exact X|]. split; [intro Z; contradiction|left; exact X].
+  - pose proof E as (He & Hc & Hf). unfold current. rewrite Hc. cbn [fst snd].
+    split; [intro Z; contradiction Z; reflexivity|]. split; [intros _; exact E|right; exact E].
+Qed.
+
+Lemma current_latched : forall s, good s -> cur s <> None -> fst (current s) <> 0.
+Proof.
+  intros s (_ & _ & Hc) N. unfold current. destruct (cur s) as [c|]; [|contradiction N; reflexivity].
+  cbn [fst]. apply (Hc c eq_refl).
+Qed.
+
+Lemma eat_safe : forall c s, c <> 0 -> alive s ->
+  alive (snd (eat c s)) /\ (if fst (eat c s) then good (snd (eat c s)) else True).
+Proof.
+  intros c s Hc A. unfold eat. pose proof (current_alive s A) as (G & _ & A').
+  destruct (current s) as [x s1]. cbn [fst snd] in *.
+  destruct (x =? c) eqn:E; cbn [fst snd].
+  - apply N.eqb_eq in E. subst x. specialize (G Hc).
+    split; [left|]; apply move_good; exact G.
+  - split; [exact A'|exact I].
+Qed.
+
+#[local] Hint Resolve good_alive at_end_alive alive_nofault move_good move_nofault
+  set_found_good set_found_alive set_found_nofault : safe.
+
+Ltac sfwd :=
+  repeat match goal with
+  | H : _ /\ _ |- _ => destruct H
+  | H : Ok = Ok -> _ |- _ => specialize (H eq_refl)
+  | H : ?A -> _, H' : ?A |- _ =>
+      lazymatch type of A with Prop => specialize (H H') end
+  | H : ?c <> 0 -> _ |- _ =>
+      let X := fresh in assert (X : c <> 0) by lia; specialize (H X)
+  | H : ?c = 0 -> _ |- _ =>
+      let X := fresh in assert (X : c = 0) by lia; specialize (H X)
+  | H : cur ?s <> None -> _, H' : cur ?s = Some _ |- _ =>
+      let X := fresh in assert (X : cur s <> None) by congruence; specialize (H X)
+  end.
+
+Ltac sauto := first [ assumption | lia | congruence | solve [eauto 8 with safe] ].
+
+Ltac sf_post :=
+  first [ solve [eauto 8 with safe]
+        | split; [ solve [eauto 8 with safe]
+                 | first [ reflexivity | congruence
+                         | intro; first [ discriminate | congruence | solve [eauto 8 with safe] ] ] ] ].
+
+Ltac sf_leaf :=
+  unfold safe2, safe3, safep, Qd in *; cbn [fst snd is_container_or_string] in *; sfwd;
+  first [ solve [eauto 8 with safe]
+        | split; [ solve [eauto 8 with safe]
+                 | intro; try discriminate; sfwd; sf_post ] ].
+
+Ltac sf_leaf_hook := sf_leaf.
+Ltac sf_go D :=
+  unfold safe2, safe3, safep, Qd in * |-; cbn [fst snd] in *; sfwd;
+  lazymatch goal with
+  | |- ?P ?r =>
+      let h := head_scrut r in
+      lazymatch h with
+      | (_, _) => sf_leaf_hook
+      | _ =>
+          first [ D h
+                | is_var h; destruct h
+                | let E := fresh "E" in destruct h eqn:E; conv E ];
+          sf_go D
+      end
+  end.
+
+Ltac s_prim h :=
+  lazymatch h with
+  | current ?X =>
+      let A := fresh "A" in
+      assert (A : alive X) by sauto;
+      pose proof (current_alive X A); pose proof (current_cur X); pose proof (current_latched X);
+      destruct (current X) as [? ?]
+  | eat ?c ?X =>
+      let A := fresh "A" in let B := fresh "B" in
+      assert (A : alive X) by sauto; assert (B : c <> 0) by lia;
+      pose proof (eat_safe c X B A); destruct (eat c X) as [[] ?]
+  end.
+
+Lemma block_comment_safe : forall fuel w s, alive s -> safe2 alive (block_comment fuel w s).
+Proof.
+  induction fuel as [|fuel IH]; intros w s A; cbn [block_comment].
+  - sf_leaf.
+  - sf_go ltac:(fun h => lazymatch h with
+      | block_comment fuel ?w ?X =>
+          let A := fresh "A" in assert (A : alive X) by sauto;
+          pose proof (IH w X A); destruct (block_comment fuel w X) as [? ?]
+      | _ => s_prim h end).
+Qed.
+
+Lemma line_comment_safe : forall fuel s, good s -> safe2 alive (line_comment fuel s).
+Proof.
+  induction fuel as [|fuel IH]; intros s A; cbn [line_comment].
+  - sf_leaf.
+  - sf_go ltac:(fun h => lazymatch h with
+      | line_comment fuel ?X =>
+          let A := fresh "A" in assert (A : good X) by sauto;
+          pose proof (IH X A); destruct (line_comment fuel X) as [? ?]
+      | _ => s_prim h end).
+Qed.
+
+Ltac s_comm h :=
+  lazymatch h with
+  | block_comment ?f ?w ?X =>
+      let A := fresh "A" in assert (A : alive X) by sauto;
+      pose proof (block_comment_safe f w X A); destruct (block_comment f w X) as [? ?]
+  | line_comment ?f ?X =>
+      let A := fresh "A" in assert (A : good X) by sauto;
+      pose proof (line_comment_safe f X A); destruct (line_comment f X) as [? ?]
+  | _ => s_prim h
+  end.
+
+Lemma skip_spaces_safe : forall cf fuel s, alive s -> safe2 alive (skip_spaces cf fuel s).
+Proof.
+  intros cf. induction fuel as [|fuel IH]; intros s A; cbn [skip_spaces].
+  - sf_leaf.
+  - sf_go ltac:(fun h => lazymatch h with
+      | skip_spaces cf fuel ?X =>
+          let A := fresh "A" in assert (A : alive X) by sauto;
+          pose proof (IH X A); destruct (skip_spaces cf fuel X) as [? ?]
+      | _ => s_comm h end).
+Qed.
+
+Lemma skip_keyword_safe : forall kw s, alive s -> safe2 alive (skip_keyword kw s).
+Proof.
+  induction kw as [|k kw IH]; intros s A; cbn [skip_keyword].
+  - sf_leaf.
+  - sf_go ltac:(fun h => lazymatch h with
+      | skip_keyword kw ?X =>
+          let A := fresh "A" in assert (A : alive X) by sauto;
+          pose proof (IH X A); destruct (skip_keyword kw X) as [? ?]
+      | _ => s_prim h end).
+Qed.
+
+Lemma parse_hex4_safe : forall n acc s, alive s -> safe3 (fun _ => alive) (parse_hex4 n acc s).
+Proof.
+  induction n as [|n IH]; intros acc s A; cbn [parse_hex4].
+  - sf_leaf.
+  - sf_go ltac:(fun h => lazymatch h with
+      | parse_hex4 n ?a ?X =>
+          let A := fresh "A" in assert (A : alive X) by sauto;
+          pose proof (IH a X A); destruct (parse_hex4 n a X) as [[? ?] ?]
+      | _ => s_prim h end).
+Qed.
+
+Ltac s_lex1 h :=
+  lazymatch h with
+  | skip_spaces ?cf ?f ?X =>
+      let A := fresh "A" in assert (A : alive X) by sauto;
+      pose proof (skip_spaces_safe cf f X A); destruct (skip_spaces cf f X) as [? ?]
+  | skip_keyword ?k ?X =>
+      let A := fresh "A" in assert (A : alive X) by sauto;
+      pose proof (skip_keyword_safe k X A); destruct (skip_keyword k X) as [? ?]
+  | parse_hex4 ?n ?a ?X =>
+      let A := fresh "A" in assert (A : alive X) by sauto;
+      pose proof (parse_hex4_safe n a X A); destruct (parse_hex4 n a X) as [[? ?] ?]
+  | _ => s_comm h
+  end.
+
+Lemma quoted_loop_safe : forall cf fuel stop cp acc s,
+  stop <> 0 -> alive s -> safe3 (fun _ => good) (quoted_loop cf fuel stop cp acc s).
+Proof.
+  intros cf. induction fuel as [|fuel IH]; intros stop cp acc s Hs A; cbn [quoted_loop].
+  - sf_leaf.
+  - sf_go ltac:(fun h => lazymatch h with
+      | quoted_loop cf fuel ?st ?c ?a ?X =>
+          let A := fresh "A" in assert (A : alive X) by sauto;
+          pose proof (IH st c a X Hs A); destruct (quoted_loop cf fuel st c a X) as [[? ?] ?]
+      | _ => s_lex1 h end).
+Qed.
+
+Lemma parse_quoted_string_safe : forall cf fuel s,
+  good s -> cur s <> None -> safe3 (fun _ => good) (parse_quoted_string cf fuel s).
+Proof.
+  intros cf fuel s G C. unfold parse_quoted_string.
+  sf_go ltac:(fun h => lazymatch h with
+      | quoted_loop cf fuel ?st ?c ?a ?X =>
+          let A := fresh "A" in let B := fresh "B" in
+          assert (A : alive X) by sauto; assert (B : st <> 0) by sauto;
+          pose proof (quoted_loop_safe cf fuel st c a X B A);
+          destruct (quoted_loop cf fuel st c a X) as [[? ?] ?]
+      | _ => s_lex1 h end).
+Qed.
+
+Lemma non_quoted_loop_safe : forall fuel acc c s,
+  good s -> safe3 (fun _ => alive) (non_quoted_loop fuel acc c s).
+Proof.
+  induction fuel as [|fuel IH]; intros acc c s G; cbn [non_quoted_loop].
+  - sf_leaf.
+  - sf_go ltac:(fun h => lazymatch h with
+      | non_quoted_loop fuel ?a ?c ?X =>
+          let A := fresh "A" in assert (A : good X) by sauto;
+          pose proof (IH a c X A); destruct (non_quoted_loop fuel a c X) as [[? ?] ?]
+      | _ => s_lex1 h end).
+Qed.
+
+Lemma parse_non_quoted_string_safe : forall fuel s,
+  alive s -> safe3 (fun _ => alive) (parse_non_quoted_string fuel s).
+Proof.
+  intros fuel s A. unfold parse_non_quoted_string.
+  sf_go ltac:(fun h => lazymatch h with
+      | non_quoted_loop fuel ?a ?c ?X =>
+          let A := fresh "A" in assert (A : good X) by sauto;
+          pose proof (non_quoted_loop_safe fuel a c X A);
+          destruct (non_quoted_loop fuel a c X) as [[? ?] ?]
+      | _ => s_lex1 h end).
+Qed.
+
+Lemma parse_key_safe : forall cf fuel s, alive s -> safe3 (fun _ => alive) (parse_key cf fuel s).
+Proof.
+  intros cf fuel s A. unfold parse_key.
+  sf_go ltac:(fun h => lazymatch h with
+      | parse_quoted_string cf fuel ?X =>
+          let A := fresh "A" in let B := fresh "B" in
+          assert (A : good X) by sauto; assert (B : cur X <> None) by sauto;
+          pose proof (parse_quoted_string_safe cf fuel X A B);
+          destruct (parse_quoted_string cf fuel X) as [[? ?] ?]
+      | parse_non_quoted_string fuel ?X =>
+          let A := fresh "A" in assert (A : alive X) by sauto;
+          pose proof (parse_non_quoted_string_safe fuel X A);
+          destruct (parse_non_quoted_string fuel X) as [[? ?] ?]
+      | _ => s_lex1 h end).
+Qed.
+
+Lemma skip_quoted_loop_safe : forall fuel stop s,
+  stop <> 0 -> alive s -> safe2 good (skip_quoted_loop fuel stop s).
+Proof.
+  induction fuel as [|fuel IH]; intros stop s Hs A; cbn [skip_quoted_loop].
+  - sf_leaf.
+  - sf_go ltac:(fun h => lazymatch h with
+      | skip_quoted_loop fuel ?st ?X =>
+          let A := fresh "A" in assert (A : alive X) by sauto;
+          pose proof (IH st X Hs A); destruct (skip_quoted_loop fuel st X) as [? ?]
+      | _ => s_lex1 h end).
+Qed.
+
+Lemma skip_quoted_string_safe : forall fuel s,
+  good s -> cur s <> None -> safe2 good (skip_quoted_string fuel s).
+Proof.
+  intros fuel s G C. unfold skip_quoted_string.
+  sf_go ltac:(fun h => lazymatch h with
+      | skip_quoted_loop fuel ?st ?X =>
+          let A := fresh "A" in let B := fresh "B" in
+          assert (A : alive X) by sauto; assert (B : st <> 0) by sauto;
+          pose proof (skip_quoted_loop_safe fuel st X B A);
+          destruct (skip_quoted_loop fuel st X) as [? ?]
+      | _ => s_lex1 h end).
+Qed.
+
+Lemma skip_non_quoted_loop_safe : forall fuel s,
+  alive s -> safe2 alive (skip_non_quoted_loop fuel s).
+Proof.
+  induction fuel as [|fuel IH]; intros s A; cbn [skip_non_quoted_loop].
+  - sf_leaf.
+  - sf_go ltac:(fun h => lazymatch h with
+      | skip_non_quoted_loop fuel ?X =>
+          let A := fresh "A" in assert (A : alive X) by sauto;
+          pose proof (IH X A); destruct (skip_non_quoted_loop fuel X) as [? ?]
+      | _ => s_lex1 h end).
+Qed.
+
+Lemma skip_key_safe : forall fuel s, alive s -> safe2 alive (skip_key fuel s).
+Proof.
+  intros fuel s A. unfold skip_key.
+  sf_go ltac:(fun h => lazymatch h with
+      | skip_quoted_string fuel ?X =>
+          let A := fresh "A" in let B := fresh "B" in
+          assert (A : good X) by sauto; assert (B : cur X <> None) by sauto;
+          pose proof (skip_quoted_string_safe fuel X A B);
+          destruct (skip_quoted_string fuel X) as [? ?]
+      | skip_non_quoted_loop fuel ?X =>
+          let A := fresh "A" in assert (A : alive X) by sauto;
+          pose proof (skip_non_quoted_loop_safe fuel X A);
+          destruct (skip_non_quoted_loop fuel X) as [? ?]
+      | _ => s_lex1 h end).
+Qed.
+
+Lemma scan_number_safe : forall cf n acc s, alive s -> safep (scan_number cf n acc s).
+Proof.
+  intros cf. induction n as [|n IH]; intros acc s A; cbn [scan_number].
+  - sf_leaf.
+  - sf_go ltac:(fun h => lazymatch h with
+      | scan_number cf n ?a ?X =>
+          let A := fresh "A" in assert (A : alive X) by sauto;
+          pose proof (IH a X A); destruct (scan_number cf n a X) as [? ?]
+      | _ => s_lex1 h end).
+Qed.
+
+Lemma skip_numeric_loop_safe : forall cf fuel s,
+  alive s -> safe2 alive (skip_numeric_loop cf fuel s).
+Proof.
+  intros cf. induction fuel as [|fuel IH]; intros s A; cbn [skip_numeric_loop].
+  - sf_leaf.
+  - sf_go ltac:(fun h => lazymatch h with
+      | skip_numeric_loop cf fuel ?X =>
+          let A := fresh "A" in assert (A : alive X) by sauto;
+          pose proof (IH X A); destruct (skip_numeric_loop cf fuel X) as [? ?]
+      | _ => s_lex1 h end).
+Qed.
+
+Lemma parse_numeric_value_safe : forall cf s, alive s ->
+  safe3 (fun v s' => alive s' /\ is_container_or_string v = false) (parse_numeric_value cf s).
+Proof.
+  intros cf s A. unfold parse_numeric_value.
+  pose proof (scan_number_safe cf 63 [] s A) as H. destruct (scan_number cf 63 [] s) as [buf s1].
+  unfold safep in H; cbn [snd] in H. cbv beta iota zeta.
+  assert (X : alive (if Nat.eqb (length buf) 63 then snd (current s1) else s1))
+    by (destruct (Nat.eqb (length buf) 63); [apply current_alive; exact H | exact H]).
+  revert X. generalize (if Nat.eqb (length buf) 63 then snd (current s1) else s1). intros s2 X.
+  destruct (parse_number cf buf); cbn [jv_of_number]; try sf_leaf.
+  unfold jv_of_double. destruct (use_double cf); [destruct (f_eq _ _)|]; sf_leaf.
+Qed.
